@@ -399,9 +399,11 @@ func checkShard(propV, tierV, shard string) *checkAcc {
 		timeout = 60 * time.Second
 	}
 	if sn > 1 {
-		solvePar = 16 / sn
-		if solvePar < 2 {
-			solvePar = 2
+		// mild oversubscription of the 16 cores: most queries are short; a query that loses the
+		// race for a core is decided again on its own (solveAll)
+		solvePar = 32 / sn
+		if solvePar < 3 {
+			solvePar = 3
 		}
 	}
 	w, err := loadWorld(allPatterns, "")
